@@ -269,6 +269,34 @@ pub fn run(ctx: &mut Ctx) {
             }
         }
     }
+    // --- flat documents: very many siblings, no nesting ------------------------------------------------------
+    if ctx.shard == 0 {
+        let lens: Vec<usize> = if ctx.quick() { vec![1_000, 100_000] } else { vec![100, 1_000, 10_000, 100_000, 1_000_000] };
+        for (i, len) in lens.iter().enumerate() {
+            if !ctx.begin("ladder-flat", i as u64) {
+                continue;
+            }
+            let mut rng = ctx.case_rng("ladder-flat", i as u64);
+            ctx.eval(&format!("ladder-flat:len{len}"), 0xF1A7_0000 + *len as u64, true);
+            let docs = [
+                format!("[{}1]", "1,".repeat(*len)),
+                format!("{{{}z}}", "a:1 ".repeat(*len)),
+                format!("{{{}z}}", "a,".repeat(*len)),
+                format!("ver:\"3.0\"\na\n{}", "1\n".repeat(*len)),
+                format!("ver:\"3.0\" {}\na\n1\n", "m:1 ".repeat(*len)),
+                format!("ver:\"3.0\"\n{}z\n", "a,".repeat(*len / 10)),
+                format!("ver:\"3.0\"\na\n{}\n", ",".repeat(*len)),
+            ];
+            for d in &docs {
+                monitor(ctx, Entry::FromStr, d.as_bytes(), "ladder-flat", &mut rng);
+                if d.starts_with("ver:") {
+                    monitor(ctx, Entry::LazyRows, d.as_bytes(), "ladder-flat", &mut rng);
+                }
+            }
+            let j = format!("[{}1]", "1,".repeat(*len));
+            monitor(ctx, Entry::JsonStr, j.as_bytes(), "ladder-flat", &mut rng);
+        }
+    }
     let json_ladders: [(&str, &str, &str, &str); 3] = [
         ("ladder-json-list", "[", "1", "]"),
         ("ladder-json-dict", "{\"a\":", "1", "}"),
